@@ -137,7 +137,7 @@ def treeRotate : Nat → List Int → Nat → Option (List Int)
         let h := histSet h (nb - 1) (histGet h (nb - 1) - 1)
         let h := histSet h nb (histGet h nb + 3)
         let h := histSet h (nb + 1) (histGet h (nb + 1) - 2)
-        if histGet h (nb - 1) < 0 ∨ histGet h (nb + 1) < 0 then none else some h
+        some h        -- Go's uint32 entries may wrap transiently inside the recursion; checked after the loop
 
 /-- `for i := len(symBits)-1; i > maxBits; i-- { for symBits[i] > 0 { treeRotate(i-1) } }`. -/
 def fixLevel (maxBits : Nat) : Nat → List Int → Nat → Option (List Int)
@@ -182,9 +182,9 @@ def generateLengths (counts : List Nat) (maxBits : Nat) : Option (List Nat) :=
         else
           let top := lens.foldl max 0
           let hist : List Int := (List.range (max (valueBits + 1) (top + 1))).map fun l => ((lens.filter (· == l)).length : Int)
-          match fixLevel maxBits (counts.length * (top + 2) + top + 2) hist (hist.length - 1) with
+          match fixLevel maxBits (hist.length + counts.length * (top + 2) + 8) hist (hist.length - 1) with
           | none => none
-          | some h => reassign counts.length h
+          | some h => if h.any (· < 0) then none else reassign counts.length h
 
 /-! ### RangeCodes -/
 
